@@ -356,7 +356,9 @@ def pytask_collect_task(
             session, path, name, path_nodes, obj
         )
 
-        markers = get_all_marks(obj)
+        # Copy the marks: marks attached to the task while it is executed (skipped,
+        # deselected, would be executed) must not end up on the function itself.
+        markers = list(get_all_marks(obj))
 
         if hasattr(obj, "pytask_meta"):
             attributes = {
